@@ -27,6 +27,10 @@ package dastard
 // stream has ended or in mid-stream (from between reader ticks or while the reader is inside
 // ReadAllPackets). In faulted runs the block consumer is sometimes slow, so that the reader
 // gets one or more buffers ahead of it.
+//
+// Time stamps: not every packet carries a usable one (every k-th packet, the first few only, a
+// rate that decodes to 0, a counter that stands still or restarts) — see "time stamps" below.
+// Long-stream layout (C12): one group of one channel with thousands of frames per packet.
 
 import (
 	"bytes"
@@ -112,9 +116,11 @@ type abacoSimWorld struct {
 	tsRate   float64
 	tsStep   uint64
 	ts0      uint64
+	stamps   abacoSimStamps // which packets carry a time stamp, and what it says
 	salt     uint32
 	signal   [][]uint16 // C12: raw phase per block channel and frame (nil: hashed values)
 	lowZero  bool       // int32 payloads carry zero low halves (C12)
+	long     bool       // C12: one group of one channel, thousands of frames per packet (long streams, few packets)
 
 	discardWorks bool
 	lossBernNum  int
@@ -167,7 +173,14 @@ func abacoSimPick(menu []int) int { return menu[simrt.Draw(len(menu))] }
 // newAbacoSimWorld draws the layout of a source (groups, channels, producers: fixed for all
 // runs on that source object) and the first run on it.
 func newAbacoSimWorld(env *simrt.Env, check string) *abacoSimWorld {
-	w := &abacoSimWorld{env: env, check: check, faulted: env.Faulted(), lagGroup: -1}
+	return newAbacoSimWorldOf(env, check, false)
+}
+
+// newAbacoSimWorldOf: long = the long-stream layout (one group of one channel whose packets are as
+// large as a datagram allows, so that a run of a few dozen packets carries ~10^5 samples of one
+// channel at the cost of a few hundred scheduler steps).
+func newAbacoSimWorldOf(env *simrt.Env, check string, long bool) *abacoSimWorld {
+	w := &abacoSimWorld{env: env, check: check, faulted: env.Faulted(), lagGroup: -1, long: long}
 	// virtual CPU time per scheduler step, measured (used to size stalls in simulated time)
 	t1 := time.Now()
 	simrt.Gosched()
@@ -177,10 +190,19 @@ func newAbacoSimWorld(env *simrt.Env, check string) *abacoSimWorld {
 	}
 	w.histLen = []int{1, 2, 1, 3}[simrt.Draw(4)]
 	ngroups := 1 + simrt.Draw(4)
+	if long {
+		ngroups = 1
+		if w.histLen > 2 {
+			w.histLen = 2
+		}
+	}
 	first := simrt.Draw(3)
 	for i := 0; i < ngroups; i++ {
 		g := &abacoSimGroup{ord: i, firstRun: -1, lastSampled: -1, lastDeliv: -1}
 		g.nchan = abacoSimPick([]int{1, 2, 3, 4, 8, 5, 6, 7})
+		if long {
+			g.nchan = 1
+		}
 		g.firstChan = first
 		first += g.nchan
 		if simrt.Draw(3) == 2 {
@@ -214,7 +236,7 @@ func newAbacoSimWorld(env *simrt.Env, check string) *abacoSimWorld {
 // and producers (the "sockets" keep their open/closed state), everything else drawn anew.
 func (w *abacoSimWorld) nextRun() *abacoSimWorld {
 	n := &abacoSimWorld{env: w.env, check: w.check, faulted: w.faulted, lagGroup: -1, delta: w.delta, as: w.as,
-		runNo: w.runNo + 1, histLen: w.histLen, nchan: w.nchan, lowZero: w.lowZero}
+		runNo: w.runNo + 1, histLen: w.histLen, nchan: w.nchan, lowZero: w.lowZero, long: w.long}
 	for _, p := range w.prods {
 		n.prods = append(n.prods, &abacoSimProducer{w: n, id: p.id, started: p.started, stopped: p.stopped})
 	}
@@ -253,6 +275,18 @@ func (w *abacoSimWorld) drawRun() {
 	if w.histLen > 1 {
 		w.npackets = 24 + simrt.Draw(50)
 	}
+	if w.long {
+		// 8000 bytes of payload is what the senders put into a datagram (abaco_test.go): 4000 frames
+		// of one 16-bit channel, 2000 of one 32-bit channel
+		w.fpp = 3000 + simrt.Draw(1001)
+		w.npackets = 24 + simrt.Draw(14)
+		for _, g := range w.groups {
+			if g.wide {
+				w.fpp /= 2
+				w.npackets = 44 + simrt.Draw(20)
+			}
+		}
+	}
 	for {
 		ticks := int(time.Duration(w.npackets) * w.period / abacoSimTick)
 		if w.npackets <= 24 || (ticks <= 280 && ticks*(2*w.nchan+3) <= 3400) { // keeps a run at a few thousand scheduler steps
@@ -280,7 +314,7 @@ func (w *abacoSimWorld) drawRun() {
 	}
 	w.tsRate = 1e8
 	w.tsStep = uint64(w.period / (10 * time.Nanosecond))
-	w.ts0 = 1000 + uint64(simrt.Draw(1<<30))
+	w.drawStamps()
 	w.discardWorks = simrt.Draw(2) == 1
 	w.faultEnd = 0
 	for _, g := range w.groups {
@@ -367,8 +401,8 @@ func (w *abacoSimWorld) describe() string {
 	if w.stopEarly {
 		s += fmt.Sprintf("Stop() once every group has reached packet %d (from inside a read: %v); ", w.stopAt, w.stopInRead)
 	}
-	s += fmt.Sprintf("%s world: %d groups, %d frames/packet, packet period %v, %d packets/group, %d producers, discardStale effective=%v, fault window ends at packet %d",
-		w.check, len(w.groups), w.fpp, w.period, w.npackets, len(w.prods), w.discardWorks, w.faultEnd)
+	s += fmt.Sprintf("%s world: %d groups, %d frames/packet, packet period %v, %d packets/group, %d producers, discardStale effective=%v, fault window ends at packet %d, time stamps on %v",
+		w.check, len(w.groups), w.fpp, w.period, w.npackets, len(w.prods), w.discardWorks, w.faultEnd, w.stamps)
 	for _, g := range w.groups {
 		bits := 16
 		if g.wide {
@@ -385,6 +419,193 @@ func (w *abacoSimWorld) describe() string {
 		}
 	}
 	return s
+}
+
+// ---------------------------------------------------------------------------------
+// time stamps
+//
+// The time-stamp TLV is optional in the packet format, its rate field may decode to 0 (the
+// source then ignores the stamp: "ts.Rate != 0"), and nothing makes a counter strictly
+// increasing from packet to packet. One plan per run, shared by all groups (one firmware):
+//
+//	all       every packet carries T = ts0 + idx·step                         (mode 0)
+//	every-kth only packets r, r+k, r+2k, … carry a stamp                       (mode 1)
+//	first-m   only the first m packets carry a stamp                          (mode 2)
+//	coarse    the counter advances every c packets: equal stamps in between   (mode 3)
+//	restart   the counter starts again from a small value at packet m: later
+//	          stamps are smaller than earlier ones                            (mode 4)
+//
+// In modes 1 and 2 the packets "without" a stamp either have no TLV at all or (rate0) carry
+// a TLV whose rate decodes to 0.
+//
+// A group that was sampled less deeply than the others may see no usable stamp at all during
+// start-up (abacoSimUnstampedGroupSample): its packets must still come out, aligned with the
+// other groups' (findings-pending/C03-sync-reference-needs-a-stamped-packet.md).
+//
+// Kept out of the world (C03 does not speak about them, see notes/C03-5.md): a source none of
+// whose groups can measure a sample rate (fewer than two distinct usable stamps in every
+// group's sample: Sample() then leaves the rate 0 and the frame period undefined, and the
+// statement says nothing about rates), stamps with T = 0, and counters whose phase differs
+// between groups (their measured rates disagree, which Sample() answers with a panic by design).
+type abacoSimStamps struct {
+	mode    int
+	k, r    int  // mode 1
+	m       int  // modes 2 and 4
+	c       int  // mode 3
+	rate0   bool // modes 1, 2: the other packets carry a stamp with rate 0 instead of none
+	restart uint64
+}
+
+// abacoSimUnstampedGroupSample: with stamps on every k-th packet only, the first stamped packet may
+// lie beyond the sample of a shallowly sampled group (while a deeper group sees two). C03 only: C12
+// keeps to streams whose ingest is unproblematic.
+const abacoSimUnstampedGroupSample = true
+
+const (
+	abacoStampAll = iota
+	abacoStampKth
+	abacoStampFirstM
+	abacoStampCoarse
+	abacoStampRestart
+)
+
+func (st abacoSimStamps) String() string {
+	switch st.mode {
+	case abacoStampKth:
+		return fmt.Sprintf("packet %d and every %d-th after it only (others: rate-0 stamp=%v)", st.r, st.k, st.rate0)
+	case abacoStampFirstM:
+		return fmt.Sprintf("the first %d packets only (others: rate-0 stamp=%v)", st.m, st.rate0)
+	case abacoStampCoarse:
+		return fmt.Sprintf("every packet, the counter advances every %d packets", st.c)
+	case abacoStampRestart:
+		return fmt.Sprintf("every packet, the counter restarts from %d at packet %d", st.restart, st.m)
+	}
+	return "every packet"
+}
+
+// stamp tells what time stamp packet idx carries: none, a usable one, or one with rate 0.
+func (w *abacoSimWorld) stamp(idx int) (has, usable bool, T uint64) {
+	st := w.stamps
+	T = w.ts0 + uint64(idx)*w.tsStep
+	switch st.mode {
+	case abacoStampKth:
+		if idx < st.r || (idx-st.r)%st.k != 0 {
+			return st.rate0, false, T
+		}
+	case abacoStampFirstM:
+		if idx >= st.m {
+			return st.rate0, false, T
+		}
+	case abacoStampCoarse:
+		T = w.ts0 + uint64(idx/st.c*st.c)*w.tsStep
+	case abacoStampRestart:
+		if idx >= st.m {
+			T = st.restart + uint64(idx-st.m)*w.tsStep
+		}
+	}
+	return true, true, T
+}
+
+// drawStamps draws the run's time-stamp plan. The most deeply sampled group holds two usable
+// stamps with different values (so the source has a measured sample rate); a group with a single
+// one or none has no rate of its own — the source must cope with that.
+func (w *abacoSimWorld) drawStamps() {
+	kMin, kMax := 1<<30, 0
+	for _, g := range w.groups {
+		if g.kSample < kMin {
+			kMin = g.kSample
+		}
+		if g.kSample > kMax {
+			kMax = g.kSample
+		}
+	}
+	w.ts0 = 1000 + uint64(simrt.Draw(1<<30))
+	w.stamps = abacoSimStamps{}
+	st := &w.stamps
+	switch simrt.Draw(10) {
+	case 5, 6:
+		st.mode = abacoStampKth
+		rmax := kMin
+		if abacoSimUnstampedGroupSample && w.check == "C03" && simrt.Draw(2) == 1 {
+			rmax = kMax // (matters only when the groups are sampled to different depths: faulted runs)
+		}
+		if kMax-1 < rmax {
+			rmax = kMax - 1
+		}
+		st.r = simrt.Draw(rmax)
+		st.k = 1 + simrt.Draw(kMax-1-st.r)
+		if st.r >= kMin {
+			// A group's sample holds no stamp. Sequence numbers start low in such runs: a source that
+			// took a raw sequence number for a gap would otherwise fill in up to 2^30 packets and
+			// exhaust the worker (no verdict) instead of showing what it emits.
+			for _, g := range w.groups {
+				g.seq0 = 1 + uint32(simrt.Draw(4000))
+			}
+		}
+		st.rate0 = simrt.Draw(3) == 2
+	case 7:
+		st.mode = abacoStampFirstM
+		st.m = 2 + simrt.Draw(kMax-1)
+		st.rate0 = simrt.Draw(3) == 2
+	case 8:
+		if kMax >= 3 {
+			st.mode = abacoStampCoarse
+			st.c = 2 + simrt.Draw(kMax-2)
+			if st.c > 4 {
+				st.c = 4
+			}
+		}
+	case 9:
+		st.mode = abacoStampRestart
+		st.m = 2 + simrt.Draw(kMax-1)
+		st.restart = 1 + uint64(simrt.Draw(1000))
+		w.ts0 += uint64(w.npackets+2) * w.tsStep // the restarted counter stays below the earlier values
+	}
+}
+
+// stampProbes counts what the plan means for this run's sampling phase.
+func (w *abacoSimWorld) stampProbes() {
+	switch w.stamps.mode {
+	case abacoStampKth:
+		simrt.Hit("stamps-every-kth-packet")
+	case abacoStampFirstM:
+		simrt.Hit("stamps-on-first-packets-only")
+	case abacoStampCoarse:
+		simrt.Hit("stamps-equal-on-consecutive-packets")
+	case abacoStampRestart:
+		simrt.Hit("stamps-decrease")
+	}
+	if w.stamps.rate0 {
+		simrt.Hit("stamps-with-rate-zero")
+	}
+	for _, g := range w.groups {
+		if g.lastSampled < 0 {
+			continue
+		}
+		// does the sampling phase of this group end on a packet that does not carry the
+		// largest usable stamp of the sample?
+		best, bestT, n := -1, uint64(0), 0
+		var firstT uint64
+		for idx := 0; idx <= g.lastSampled; idx++ {
+			if _, usable, T := w.stamp(idx); usable {
+				if n == 0 {
+					firstT = T
+				}
+				n++
+				if T > bestT {
+					best, bestT = idx, T
+				}
+			}
+		}
+		if best != g.lastSampled {
+			simrt.Hit("sampling-ends-after-the-largest-stamp")
+		}
+		if n == 0 {
+			simrt.Hit("group-sample-without-usable-stamp")
+		} else if bestT == firstT {
+			simrt.Hit("group-rate-not-measurable")
+		}
+	}
 }
 
 // ---------------------------------------------------------------------------------
@@ -435,7 +656,10 @@ func (w *abacoSimWorld) demuxed(g *abacoSimGroup, ch, frame int) (v, alt RawType
 
 func (w *abacoSimWorld) makePacket(g *abacoSimGroup, idx int) *packets.Packet {
 	pk := packets.NewPacket(10, uint32(20+g.ord), g.seq0+uint32(idx)-1, g.firstChan) // NewData adds one
-	pk.SetTimestamp(&packets.PacketTimestamp{T: w.ts0 + uint64(idx)*w.tsStep, Rate: w.tsRate})
+	has, usable, T := w.stamp(idx)
+	if has {
+		pk.SetTimestamp(&packets.PacketTimestamp{T: T, Rate: w.tsRate})
+	}
 	n := w.fpp * g.nchan
 	var err error
 	if g.wide {
@@ -458,9 +682,23 @@ func (w *abacoSimWorld) makePacket(g *abacoSimGroup, idx int) *packets.Packet {
 	if err != nil {
 		simrt.Fail("harness.packet", "harness:packet-build", "NewData: %v", err)
 	}
-	q, err := packets.ReadPacket(bytes.NewReader(pk.Bytes()))
+	wire := pk.Bytes()
+	if has && !usable {
+		// A stamp whose rate decodes to 0: the denominator of the clock period is 0 on the wire.
+		// (Bytes() cannot write it: it would look for the period's scale for ever. Layout: 16 bytes
+		// of fixed header, 8 bytes of channel-offset TLV, then type, length, bits, exponent,
+		// numerator (2), denominator (2), counter (8).)
+		wire[30], wire[31] = 0, 0
+	}
+	q, err := packets.ReadPacket(bytes.NewReader(wire))
 	if err != nil {
 		simrt.Fail("harness.packet", "harness:packet-decode", "ReadPacket of a packet made by Bytes(): %v", err)
+	}
+	switch ts := q.Timestamp(); {
+	case !has && ts != nil, has && ts == nil:
+		simrt.Fail("harness.packet", "harness:packet-stamp", "packet %d: time stamp wanted %v, decoded %v", idx, has, ts)
+	case has && (ts.T != T || (usable && ts.Rate != w.tsRate) || (!usable && ts.Rate != 0)):
+		simrt.Fail("harness.packet", "harness:packet-stamp", "packet %d: time stamp T=%d usable=%v, decoded %+v", idx, T, usable, *ts)
 	}
 	if q.SequenceNumber() != g.seq0+uint32(idx) || q.Frames() != w.fpp {
 		simrt.Fail("harness.packet", "harness:packet-roundtrip", "packet round trip: seq %d frames %d, want %d and %d", q.SequenceNumber(), q.Frames(), g.seq0+uint32(idx), w.fpp)
@@ -835,6 +1073,7 @@ func (w *abacoSimWorld) startSource(opts AbacoUnwrapOptions) {
 	if as.nchan != w.nchan || len(as.groups) != len(w.groups) {
 		simrt.Fail("harness.start", "harness:sample-layout", "Sample found %d channels in %d groups, the network sends %d in %d", as.nchan, len(as.groups), w.nchan, len(w.groups))
 	}
+	w.stampProbes()
 	if err := as.PrepareChannels(); err != nil {
 		simrt.Fail("harness.start", "harness:prepare", "PrepareChannels: %v", err)
 	}
